@@ -17,11 +17,11 @@ use write_fonts::tables::layout::builders::Builder;
 use write_fonts::tables::variations::ivs_builder::VariationStoreBuilder;
 use write_fonts::types::GlyphId16;
 
-fn gid(g: u16) -> GlyphId16 {
+pub fn gid(g: u16) -> GlyphId16 {
     GlyphId16::new(g)
 }
 
-fn neighbours(gs: impl Iterator<Item = u16>) -> Vec<u16> {
+pub fn neighbours(gs: impl Iterator<Item = u16>) -> Vec<u16> {
     let mut s = BTreeSet::new();
     for g in gs {
         s.insert(g);
@@ -54,7 +54,7 @@ fn device_vals2(a: u32, b: u32) -> (u16, [i8; 3]) {
 /// construction only), 4 = xAdv + Device | xPla + another Device (both value records carry their
 /// own, distinct device tables), 5 = xAdv + VariationIndex | xPla + Device (direct only).
 /// Returns (expected pair, builder pair).
-fn rule_values(style: u8, a: u32, b: u32) -> ((RVal, RVal), (ValueRecordBuilder, ValueRecordBuilder)) {
+pub fn rule_values(style: u8, a: u32, b: u32) -> ((RVal, RVal), (ValueRecordBuilder, ValueRecordBuilder)) {
     let adv = ((a * 7 + b) % 30000) as i16 + 1;
     let mut e1 = RVal::default();
     let mut e2 = RVal::default();
@@ -90,7 +90,7 @@ fn rule_values(style: u8, a: u32, b: u32) -> ((RVal, RVal), (ValueRecordBuilder,
     ((e1, e2), (b1, b2))
 }
 
-fn anchor_values(style: u8, x: i16, y: i16, salt: u32) -> (RAnchor, AnchorBuilder) {
+pub fn anchor_values(style: u8, x: i16, y: i16, salt: u32) -> (RAnchor, AnchorBuilder) {
     match (style, salt % 5) {
         (1, 0) | (1, 3) => (
             RAnchor { x, y, point: Some(salt as u16 % 40), xdev: None, ydev: None },
